@@ -1353,6 +1353,10 @@ impl SymbolTable {
     pub fn verif_labels(&self) -> Vec<(String, u16, usize, bool)> {
         self.label_map.iter().map(|(k, d)| (k.clone(), d.addr, d.src_start, d.external)).collect()
     }
+    /// Line map blocks: first line and the addresses of the consecutive lines, ascending by line.
+    pub fn verif_line_blocks(&self) -> Vec<(usize, Vec<u16>)> {
+        self.debug_symbols.iter().flat_map(|d| d.line_map.block_iter().map(|(l, b)| (l, b.to_vec()))).collect()
+    }
     /// Relocation table entries (unspecified order).
     pub fn verif_relocations(&self) -> Vec<(u16, String)> {
         self.rel_map.iter().map(|(&a, l)| (a, l.clone())).collect()
